@@ -78,6 +78,10 @@ pub fn check(bc: &BuildCase, with_callback: bool, obs: &mut Obs) -> Result<(), F
             }
         }
     }
+    // copies made through `Clone` carry the same label map (clone(), clone_from onto a larger and onto a smaller symbol)
+    if let Some(d) = crate::fq::copy_differs(&built.qr) {
+        return fail("copy", format!("a copy of the symbol differs from it: {} ({:?})", d, bc));
+    }
     let want_data = 8 * total_codewords(v) + remainder_bits(v);
     ensure!(data_labels == want_data, "data_count", "v{}: {} modules labelled data, 8 x {} codewords + {} remainder bits = {}", v, data_labels, total_codewords(v), remainder_bits(v), want_data);
     if with_callback {
